@@ -38,6 +38,7 @@ def init_module(parser, options, position):
 
         Macro(parms, '\\DeclareMathOperator', args='*AA'),
         Macro(parms, '\\substack', args='A', repl=h_substack),
+        Macro(parms, '\\tag', args='*A', repl=''),
 
     ]
 
